@@ -128,6 +128,13 @@ enum Lib {
     Cx(CubicSpline<C>),
 }
 impl Lib {
+    /// (evaluate is Ok, evaluate_derivative is Ok) - used outside the knot range, where both must be Err
+    fn both_ok(&self, x: f64) -> (bool, bool) {
+        match self {
+            Lib::R(s) => (s.evaluate(x).is_ok(), s.evaluate_derivative(x).is_ok()),
+            Lib::Cx(s) => (s.evaluate(x).is_ok(), s.evaluate_derivative(x).is_ok()),
+        }
+    }
     fn eval(&self, x: f64) -> Result<(C, C), String> {
         match self {
             Lib::R(s) => {
@@ -294,8 +301,15 @@ impl Check for Splines {
         }
         // outside the knot range
         for x in [xs[0] - 1e-6 * (1.0 + xs[0].abs()), xs[n - 1] + 1e-6 * (1.0 + xs[n - 1].abs()), xs[0] - 5.0, xs[n - 1] + 5.0] {
-            if let Ok(v) = lib.eval(x) {
-                o.viol(subj, "outside-the-knot-range-gives-err", ctx(&format!("x = {:?} gives {:?}", x, v)));
+            let (ev, ed) = match vcore::guard(|| lib.both_ok(x)) {
+                Ok(b) => b,
+                Err(m) => {
+                    o.viol(subj, "never-panics", ctx(&format!("x = {:?} outside the range: {}", x, m)));
+                    break;
+                }
+            };
+            if ev || ed {
+                o.viol(subj, "outside-the-knot-range-gives-err", ctx(&format!("x = {:?}: evaluate Ok = {}, evaluate_derivative Ok = {}", x, ev, ed)));
                 break;
             }
         }
